@@ -129,6 +129,63 @@ func zzH_C14_sender_list_reference(t *zzT) {
 	t.Reach("end")
 }
 
+// zzH_C14_promote_stale_set: C14.e under the interleaving the promotion step allows — reorg computes
+// GetPromotable, verifies that set WITHOUT holding the pool lock, then calls Promote: between the two
+// another pool operation may have replaced (same nonce, higher fee) or removed one of those
+// transactions. Whatever Promote answers, every processable nonce must hold a transaction of the
+// verified set (processable => passed verification), and processables stay the gap-free prefix.
+//
+//zz:opt loop=64 require=end,replaced-in-between,removed-in-between
+//zz:quick m=2
+//zz:thorough m=3
+func zzH_C14_promote_stale_set(t *zzT) {
+	M := t.Param("m", 2)
+	m := t.Range("m", 1, M)
+	l := newAddressTransactions([]byte{0xaa}, M+1, t.U64("minDiff"))
+	ws := make([]*TransactionWithFeePriority, m)
+	for i := range ws {
+		ws[i] = &TransactionWithFeePriority{
+			Transaction: &blockchain.Transaction{ID: []byte{byte(i)}, Nonce: t.U64(t.Name("nonce", i)), Fee: t.U64(t.Name("fee", i)), SenderPublicKey: zzSenderKeys[0]},
+		}
+		for j := 0; j < i; j++ {
+			t.Assume(ws[j].Nonce != ws[i].Nonce)
+		}
+		ok, _, _ := l.Add(ws[i], false)
+		t.Assume(ok)
+	}
+	verified := l.GetPromotable() // the set reorg sends to the application (all found valid)
+	if len(verified) == 0 {
+		return
+	}
+	// the operation that slips in between
+	victim := verified[t.Choice("victim", len(verified))]
+	if t.Bool("between.replace") {
+		repl := &TransactionWithFeePriority{
+			Transaction: &blockchain.Transaction{ID: []byte{0x77}, Nonce: victim.Nonce, Fee: t.U64("fee.replacement"), SenderPublicKey: zzSenderKeys[0]},
+		}
+		ok, _, _ := l.Add(repl, false)
+		if ok {
+			t.Reach("replaced-in-between")
+		}
+	} else {
+		l.Remove(victim.Nonce)
+		t.Reach("removed-in-between")
+	}
+	l.Promote(verified)
+	for _, n := range l.processables {
+		cur := l.transactions[n]
+		isVerified := false
+		for _, v := range verified {
+			if v == cur {
+				isVerified = true
+			}
+		}
+		t.Assert(cur != nil && isVerified, "sender list: a processable nonce holds a transaction of the verified set (a transaction that replaced a verified one is not promoted with it)")
+	}
+	t.Assert(zzListInvariant(t, l), "sender list: Promote of a stale set keeps processables the gap-free prefix of the sorted nonces")
+	t.Reach("end")
+}
+
 // zzH_C14_fee_priority_defined: C14.f — a transaction that went through Init (what NewTransaction,
 // block decoding and the postTransaction endpoint do before the pool sees it) has size >= 1, so
 // calculateFeePriority does not divide by zero (a division by zero would be reported as a panic).
